@@ -142,6 +142,50 @@ def pair_task(t):
     return dict(n=n, distinct=n, violations=viols, sample=None)
 
 
+def long_shapes(tier):
+    """status lines at the size limits of their parts: response-code parameter and text up to the 1024 octets of a quoted string each,
+    literal texts around every power of two"""
+    out = []
+    lens = (0, 1, 1023, 1024)
+    for code in (b"OK", b"NO"):
+        for pl in lens:
+            for tl in lens:
+                rc = None if pl == 0 else b'TAG "' + b"p" * pl + b'"'
+                tx = None if tl == 0 else b"t" * tl
+                line = code + (b" (" + rc + b")" if rc else b"") + (b" " + refms.enc_quoted(tx) if tx else b"") + b"\r\n"
+                out.append(("%s/param%d/quoted%d" % (code.decode(), pl, tl), line, code, rc, tx))
+        for k in range(6, 13 if tier == "quick" else 17):
+            for L in (2 ** k - 1, 2 ** k, 2 ** k + 1):
+                tx = (b"line of text\r\n" * (L // 14 + 1))[:L]
+                out.append(("%s/code/literal%d" % (code.decode(), L), code + b" (QUOTA/MAXSIZE) " + refms.enc_literal(tx) + b"\r\n", code, b"QUOTA/MAXSIZE", tx))
+    return out
+
+
+def long_task(t):
+    op, tier = t
+    viols = []
+    n = 0
+    for label, line, code, rcode, text in long_shapes(tier):
+        for seg in (None, ("cap", 1), ("cap", 7), ("cap", 1460), ("cap", 4096), ("cuts", [len(line) - 2]), ("cuts", [len(line) - 1])):
+            srv = W.ScriptedServer(store={"a": b"keep;\r\n"}, active="a", version=True)
+            s = wire.open_session(srv)
+            srv.script = [line]
+            s.client.errcode = None
+            s.client.errmsg = b""
+            s.cur_socket().set_seg(seg)
+            o = s.call(op, *OPS[op])
+            n += 1
+            bad = judge(op, None, code, rcode, text, o, None)
+            if bad is None and o.leftover:
+                bad = ("unread-bytes", "%d bytes of the reply left unread" % o.leftover)
+            if bad:
+                viols.append({"property": "C09", "engine": "wire", "signature": ["C09", op, "long:" + label.rstrip("0123456789") + ("/segmented" if seg else ""), bad[0]],
+                              "what": "%s answered a %d-octet status line (%s) delivered %r: %s" % (op, len(line), label, seg, bad[1][:200]),
+                              "case": {"kind": "long", "op": op, "label": label, "seg": list(seg) if seg else None},
+                              "witness": "%s <- %s delivered %r" % (op, label, seg), "observed": o.brief()[:120]})
+    return dict(n=n, distinct=n, violations=viols, sample=None)
+
+
 STEPS_CONNECT = ["GREETING", "STARTTLS", "TLSCAPS", "AUTHRESULT"]
 STEPS_RENAME = ["LISTSCRIPTS", "GETSCRIPT", "PUTSCRIPT", "SETACTIVE", "DELETESCRIPT"]
 
@@ -229,7 +273,8 @@ def run(tier, seed):
     r2 = pool.run_tasks("checks.c09:multi_task", ["connect", "rename"])
     pair_ops = ["havespace", "getscript"] if tier == "quick" else list(OPS)
     r3 = pool.run_tasks("checks.c09:pair_task", [(op, i, 8) for op in pair_ops for i in range(8)])
-    res = r1 + r2 + r3
+    r4 = pool.run_tasks("checks.c09:long_task", [(op, tier) for op in ("havespace", "putscript", "deletescript", "setactive")])
+    res = r1 + r2 + r3 + r4
     n = sum(r["n"] for r in res)
     viols = []
     for r in res:
@@ -254,6 +299,9 @@ def replay(payload):
         for i in range(8):
             out.extend(pair_task((c["op"], i, 8))["violations"])
         return [v for v in out if v["signature"] == sig]
+    if c["kind"] == "long":
+        r = long_task((c["op"], "thorough"))
+        return [v for v in r["violations"] if v["case"]["label"] == c["label"] and v["case"]["seg"] == c["seg"]]
     if c["kind"] == "status":
         r = status_task((c["op"], "quick"))
     else:
